@@ -652,38 +652,45 @@ func c10NodeRace(ev *vlib.Evidence, driver string, s store.Store, idx int) {
 // detector log is parsed by the parent.
 func c10Child() int {
 	ev := vlib.NewEvidence("C10", "exploration", "")
+	var dwg sync.WaitGroup
 	for _, driver := range vlib.Drivers() {
-		s, cleanup, err := vlib.OpenStore(driver)
-		if err != nil {
-			panic(err)
-		}
-		for i := 0; i < vlib.Scale(60, 800); i++ {
-			c10StoreHistory(ev, driver, s, i)
-		}
-		for i := 0; i < vlib.Scale(40, 400); i++ {
-			c10Snapshots(ev, driver, s, i, true)
-		}
-		for i := 0; i < vlib.Scale(150, 1500); i++ {
-			c10LinkRace(ev, driver, s, i)
-		}
-		for i := 0; i < vlib.Scale(60, 500); i++ {
-			c10NodeRace(ev, driver, s, i)
-		}
-		cleanup()
-		for _, tr := range []string{"local", "remote", "tcp", "http"} {
-			for i := 0; i < vlib.Scale(6, 40); i++ {
-				c10PoolRound(ev, driver, tr, i)
+		driver := driver
+		dwg.Add(1)
+		go func() {
+			defer dwg.Done()
+			s, cleanup, err := vlib.OpenStore(driver)
+			if err != nil {
+				panic(err)
 			}
-		}
-		// other concurrent workloads of this harness, for the race detector
-		for i := 0; i < vlib.Scale(6, 20); i++ {
-			c01Concurrent(ev, driver, 1000+i)
-			c05Concurrent(ev, driver, 1000+i)
-			c07Concurrent(ev, driver, 1000+i)
-			c09Racing(ev, driver, 1000+i)
-		}
+			for i := 0; i < vlib.Scale(60, 400); i++ {
+				c10StoreHistory(ev, driver, s, i)
+			}
+			for i := 0; i < vlib.Scale(40, 200); i++ {
+				c10Snapshots(ev, driver, s, i, true)
+			}
+			for i := 0; i < vlib.Scale(150, 800); i++ {
+				c10LinkRace(ev, driver, s, i)
+			}
+			for i := 0; i < vlib.Scale(60, 300); i++ {
+				c10NodeRace(ev, driver, s, i)
+			}
+			cleanup()
+			for _, tr := range []string{"local", "remote", "tcp", "http"} {
+				for i := 0; i < vlib.Scale(6, 24); i++ {
+					c10PoolRound(ev, driver, tr, i)
+				}
+			}
+			// other concurrent workloads of this harness, for the race detector
+			for i := 0; i < vlib.Scale(6, 12); i++ {
+				c01Concurrent(ev, driver, 1000+i)
+				c05Concurrent(ev, driver, 1000+i)
+				c07Concurrent(ev, driver, 1000+i)
+				c09Racing(ev, driver, 1000+i)
+			}
+		}()
 	}
-	for i := 0; i < vlib.Scale(10, 40); i++ {
+	dwg.Wait()
+	for i := 0; i < vlib.Scale(10, 30); i++ {
 		c14Round(ev, "memnet", 1000+i)
 	}
 	if err := ev.Export(os.Getenv("VERIF_CHILD_OUT")); err != nil {
